@@ -7,6 +7,7 @@ CONSTANTS
   MaxIvl = 1600
   MaxSend = 7
   FineTime = TRUE
+  SlowWrites = TRUE
   FailAts = {0, 1, 2, 7}
   MaxDepth = 7
 CONSTRAINT DepthBound
